@@ -16,9 +16,9 @@ import (
 
 func init() {
 	ev.Register(&ev.Check{
-		ID:    "C06",
-		Level: "exploration",
-		Rule: "inputs: (i) every valid JSON text among ALL strings <= 5 (thorough 6) symbols over the 30-class alphabet; (ii) ALL JSON values with <= 4 (5) nodes over 10 scalar forms rendered with every placement of <= 2 (3) gaps from {space, tab, LF, CRLF} over all inter-token positions; (iii) all 2^8 object/array nestings of depth 8, flat containers of width 1..8, numbers ending at end of input. Oracle on the public NextLexeme stream: properly nested, terminated by io.EOF, spans inside the input, literal/key spans == reference token spans, container spans bracket to bracket, value rebuilt from events alone == reference parse; cross-scanner: schema scanner and (arrays of scalars) enum scanner via verif hooks yield the same (type, begin, end) sequence modulo new-line events. States/transitions = distinct (event-type stack) configurations of the replayed event automaton and steps between them. Non-trivial = distinct valid text with >= 2 events.",
+		ID:             "C06",
+		Level:          "exploration",
+		Rule:           "inputs: (i) every valid JSON text among ALL strings <= 5 (thorough 6) symbols over the 30-class alphabet; (ii) ALL JSON values with <= 4 (5) nodes over 10 scalar forms rendered with every placement of <= 2 (3) gaps from {space, tab, LF, CRLF} over all inter-token positions; (iii) all 2^8 object/array nestings of depth 8, flat containers of width 1..8, numbers ending at end of input. Oracle on the public NextLexeme stream: properly nested, terminated by io.EOF, spans inside the input, literal/key spans == reference token spans, container spans bracket to bracket, value rebuilt from events alone == reference parse; cross-scanner: schema scanner and (arrays of scalars) enum scanner via verif hooks yield the same (type, begin, end) sequence modulo new-line events. States/transitions = distinct (event-type stack) configurations of the replayed event automaton and steps between them. Non-trivial = distinct valid text with >= 2 events.",
 		Run:            run,
 		Replay:         replay,
 		QuickBudget:    80 * time.Second,
